@@ -13,6 +13,7 @@ import StarsimModel.Model.TimePar
 import StarsimModel.Generated.HazardExprs
 import StarsimModel.Generated.TimeDecls
 import StarsimModel.Generated.StepClocks
+import StarsimModel.Generated.ParsUpdate
 
 namespace StarsimModel.Hazard
 open StarsimModel.TimePar
@@ -217,5 +218,75 @@ def dtYearOf (kind : String) (unit : UnitT) (dt : Option Rat) : Except Err Rat :
 
 def dtYear (numeric : Bool) (unit : UnitT) (dt : Option Rat) : Except Err Rat :=
   dtYearOf (if numeric then Gen.dtYearNumeric else Gen.dtYearDate) unit dt
+
+/-! ### Round 5: a user-supplied value merged into a parameter whose DEFAULT is a time parameter (`Pars.update` →
+    `Pars._update_timepar`), e.g. `ss.SIR(beta=0.02)`, `ss.SIS(waning=0.1)`, `dict(type='sis', waning=[0.1, 'day'])` -/
+
+/-- what a module parameter holds after construction: a time parameter — found and linked to the module's timeline by
+    `Module.init_time` — or a bare number, which `init_time` never sees and which is therefore applied AS IS on every step -/
+inductive Par where
+  | tp (t : TP Rat)
+  | raw (x : Rat)
+
+/-- the value the user supplies: a plain number, a list `[x]` / `[x, unit]`, or a time parameter of their own -/
+inductive NewVal where
+  | number (x : Rat)
+  | list (x : Rat) (unit : UnitT)
+  | timepar (t : TP Rat)
+
+def NewVal.ty : NewVal → String
+  | .number _ => "Number"
+  | .list _ _ => "list"
+  | .timepar _ => "TimePar"
+
+/-- the action of the first branch of the regenerated `_update_timepar` table that matches the type (none: the final `raise`) -/
+def updAction (table : List (String × String)) (ty : String) : String :=
+  (table.lookup ty).getD ((table.lookup "*").getD "raise")
+
+/-- the handler `Pars.update` dispatches a parameter to whose CURRENT value is a time parameter (a class listed in
+    `atomic_classes` would be overwritten directly) -/
+def updHandler (dispatch : List (String × String)) (atomic : List String) : String :=
+  if atomic.contains "TimePar" then "direct" else (dispatch.lookup "TimePar").getD ((dispatch.lookup "*").getD "direct")
+
+/-- `old.set(v, unit)` on the (not yet initialised) default -/
+def setDefault (old : TP Rat) (v : Val Rat) (unit : UnitT) : Except Err Par :=
+  match setPars ratOps old (some v) unit none none none false with
+  | (t, .ok ()) => .ok (.tp t)
+  | (_, .error e) => .error e
+
+/-- `Pars._update_timepar(key, old, new)` with the regenerated branch table: `set` keeps the default's class and unit and
+    replaces the number inside it, `replace` stores the new value itself (for a plain number: the bare number) -/
+def mergeTimepar (table : List (String × String)) (old : TP Rat) (new : NewVal) : Except Err Par :=
+  match new with
+  | .number x =>
+      if updAction table "Number" = "set" then setDefault old (.scalar x) none
+      else if updAction table "Number" = "replace" then .ok (.raw x)
+      else .error .type
+  | .list x u => if updAction table "list" = "set*" then setDefault old (.scalar x) u else .error .type
+  | .timepar t => if updAction table "TimePar" = "replace" then .ok (.tp t) else .error .type
+
+/-- `Module.init_time` on what the parameter holds: a time parameter is linked to the module timeline `(pu, pdt)`, a bare number is not touched -/
+def parInit (p : Par) (pu : UnitT) (pdt : Option Rat) (updVals : Bool) : Except Err Par :=
+  match p with
+  | .raw x => .ok (.raw x)
+  | .tp t =>
+    match init ratOps t true pu pdt none updVals true with
+    | (t', .ok ()) => .ok (.tp t')
+    | (_, .error e) => .error e
+
+/-- the amount the module applies in ONE step -/
+def Par.perStep : Par → Except Err (Val Rat)
+  | .raw x => .ok (.scalar x)
+  | .tp t => match t.values with | some v => .ok v | none => .error .type
+
+/-- declaration of the default (plain spelling) → user override → `init_time` on the module timeline -/
+def overrideInit (table : List (String × String)) (k : Kind) (v0 : Val Rat) (declared : UnitT) (new : NewVal)
+    (pu : UnitT) (pdt : Option Rat) (updVals : Bool) : Except Err Par :=
+  match declare Gen.wrapLost .plain k v0 declared with
+  | .error e => .error e
+  | .ok old =>
+    match mergeTimepar table old new with
+    | .error e => .error e
+    | .ok p => parInit p pu pdt updVals
 
 end StarsimModel.Hazard
